@@ -195,7 +195,14 @@ def run_case(case):
                                    tables=[{'name': r['name'], 'fields': r['fields'], 'rows': [], 'kind': 'load'}
                                            for r in (sh[-1] if sh else dsl.source_shape(tables))])
         specs = s1 + s2
-        if rng.random() < 0.6:
+        if rng.random() < 0.25 and not any('arr' in [f[0] for f in t['fields']] for t in tables):
+            # a constant mutable value given to every row, then edited in place row by row
+            names_now = [r['name'] for r in (sh[-1] if sh else dsl.source_shape(tables))]
+            specs = s1 + [{'op': 'add_field', 'res': names_now, 'sel': None, 'name': 'arr', 'type': 'array',
+                           'default': [1]},
+                          {'op': 'user', 'fn': 'u_arr_append', 'form': 'function'}] + \
+                [x for x in s2 if x['op'] not in ('add_field',)]
+        elif rng.random() < 0.6:
             # nested cell values edited in place after a row-retaining step
             for t in tables:
                 if 'arr' not in [f[0] for f in t['fields']]:
